@@ -76,7 +76,8 @@ class StubHandler(urllib.request.BaseHandler):
         return urllib.response.addinfourl(io.BytesIO(body), headers, url, 200)
 
     # 'mem' stands for any non-file scheme; it is also used without an authority part (mem:x, mem:/d/x)
-    http_open = https_open = ftp_open = mem_open = _serve
+    # 'urn' is a name that only an application-supplied opener (a catalogue resolver) can fetch
+    http_open = https_open = ftp_open = mem_open = urn_open = _serve
 
 
 def make_opener():
